@@ -7,6 +7,9 @@ them is a violation), needs_mosn_binary.
 """
 
 JOBS = {
+    "C17": [
+        {"cmd": "c17-engine", "race": True, "batches": {"quick": 2, "thorough": 6}, "timeout": {"quick": 900, "thorough": 3000}},
+    ],
     "C19": [
         {"cmd": "c19-codec", "race": False, "batches": {"quick": 4, "thorough": 16}, "timeout": {"quick": 300, "thorough": 1500}},
         {"cmd": "c19-samples", "race": False, "batches": {"quick": 2, "thorough": 2}, "timeout": {"quick": 600, "thorough": 900}},
